@@ -489,6 +489,21 @@ def build(case, arrays=None):
         ret = c.get("ret", "vec")
 
         def u0fun(x):
+            if case.get("spinn"):
+                # a SPINN hands `_get_grid(omega_batch)`, shape (n, ..., n, d): evaluate on the last axis
+                zs = [jnp.zeros(x.shape[:-1], dtype=x.dtype)] + [x[..., j] for j in range(x.shape[-1])] \
+                     + [jnp.asarray(theta, dtype=x.dtype)]
+                vs = []
+                for tt in terms:
+                    tot = jnp.zeros(x.shape[:-1], dtype=x.dtype)
+                    for coef, e in tt:
+                        t_ = jnp.ones(x.shape[:-1], dtype=x.dtype) * coef
+                        for j, k in enumerate(e):
+                            for _ in range(k):
+                                t_ = t_ * zs[j]
+                        tot = tot + t_
+                    vs.append(tot)
+                return vs[0] if ret == "scalar" else jnp.stack(vs, axis=-1)
             z = jnp.concatenate([jnp.zeros((1,), dtype=x.dtype), x, jnp.asarray([theta], dtype=x.dtype)])
             vs = [peval_jax(t, z) for t in terms]
             return vs[0] if ret == "scalar" else jnp.stack(vs)
@@ -538,7 +553,17 @@ def lean_case(case, arrays):
     ex = Exact(case)
     kind, m = case["kind"], case["m"]
     inside = arrays["inside"]
-    out = {"kind": kind, "inside": qmat(inside), "slice_solution": case.get("slice_solution"),
+    spinn = bool(case.get("spinn"))
+
+    def grid_of(rows):
+        """tensor grid of the coordinate columns of `rows` (what a SPINN evaluates)"""
+        if not spinn:
+            return rows
+        cols = [[r[j] for r in rows] for j in range(len(rows[0]))]
+        return [list(p) for p in itertools.product(*cols)]
+
+    out = {"kind": kind, "spinn": spinn, "d": case["d"], "inside": qmat(inside),
+           "slice_solution": case.get("slice_solution"),
            "dyn": None, "ic": None, "norm": None, "boundary": None, "obs": None}
     if case.get("dyn"):
         out["dyn"] = {"w": case["dyn"]["w"],
@@ -552,7 +577,7 @@ def lean_case(case, arrays):
             out["ic"] = {"w": c["w"], "rows": [qrow(ex.uval([F(c["t0"])], **pr)) for pr in pb_rows(case)],
                          "u0": qrow(u0)}
         else:
-            xs = _uniq([r[1:] for r in inside])
+            xs = _uniq(grid_of([r[1:] for r in inside]))
             u0tab = []
             for x in xs:
                 v = ex.fn(c["u0"], [Fr(0)] + x)
@@ -570,11 +595,12 @@ def lean_case(case, arrays):
     if case.get("norm"):
         c = case["norm"]
         samples = [[F(x) for x in s] for s in c["samples"]]
+        gs = _uniq(grid_of(samples))
         if kind == "statio":
-            tab = [[qrow(s), qrow(ex.uval(s))] for s in _uniq(samples)]
+            tab = [[qrow(s), qrow(ex.uval(s))] for s in gs]
         else:
             ts = _uniq([r[:1] for r in inside])
-            tab = [[qrow(t + s), qrow(ex.uval(t + s))] for t in ts for s in _uniq(samples)]
+            tab = [[qrow(t + s), qrow(ex.uval(t + s))] for t in ts for s in gs]
         out["norm"] = {"w": c["w"], "L": c["L"], "samples": qmat(samples), "tab": tab}
     if case.get("boundary"):
         c = case["boundary"]
@@ -671,6 +697,8 @@ def is_pow2(n):
 def divisors_exact(case, arrays):
     """True when every mean of the case is over a power-of-two number of rows"""
     ns = [len(arrays["inside"])]
+    if case.get("spinn") and case.get("norm"):
+        ns.append(case["m"])  # a SPINN averages over all its output components
     if case.get("norm"):
         ns.append(len(case["norm"]["samples"]) * (sol_slice(case)[1] - sol_slice(case)[0]))
         ns.append(len(arrays["inside"]))
@@ -874,10 +902,11 @@ def gen_obs(rng, case, n, with_theta=None):
 
 def gen_norm(rng, case, ns):
     d = case["d"]
-    samples = []
+    samples, tries = [], 0
     while len(samples) < ns:
         s = [half(rng) for _ in range(d)]
-        if s not in samples or len(samples) > 20:
+        tries += 1
+        if s not in samples or tries > 20 * ns:
             samples.append(s)
     return {"w": q(Fr(rng.randint(1, 6), 2)), "L": q(Fr(rng.choice([1, 2, 3, 4, 6, 8]), rng.choice([1, 2, 4]))),
             "samples": qmat(samples)}
